@@ -3,6 +3,7 @@ CONSTANTS
   devs = {"leftfds_zero_pending"}
   Total <- RealTotal
   TooLarge <- RealTooLarge
+  Skip <- RealSkip
 INIT TInit
 NEXT TNext
 INVARIANT Done
